@@ -174,6 +174,17 @@ def real_peer(base):
     return path
 
 
+def argv_ok(got, inp, is_dir, extra, outp):
+    """The statement fixes WHAT is passed (the input, '-o <output>', the extra arguments verbatim and in order,
+    '-r' iff directory), not the relative order of these groups: accept any arrangement of the whole groups."""
+    import itertools
+    blocks = [[inp], ["-o", outp]] + ([["-r"]] if is_dir else []) + ([list(extra)] if extra else [])
+    for perm in itertools.permutations(blocks):
+        if [a for b in perm for a in b] == list(got):
+            return True
+    return False
+
+
 def parse_record(path):
     if not os.path.exists(path):
         return []
@@ -240,16 +251,16 @@ def evaluate(spec, ctx):
                 o2 = spec["second"]["output"].replace("{BASE}", base)
                 e2 = [e.replace("{BASE}", base) for e in spec["second"]["extra"]]
                 want2 = [inp] + (["-r"] if is_dir else []) + e2 + ["-o", o2]
-                if calls != [want_argv, want2]:
+                if not (len(calls) == 2 and argv_ok(calls[0], inp, is_dir, extra, outp) and argv_ok(calls[1], inp, is_dir, e2, o2)):
                     viols.append(viol("calls-not-forwarded-one-by-one",
                                       f"two cminx_gen_rst() calls; peer saw {calls!r}, expected {[want_argv, want2]!r}"))
             elif plan not in ("missing", "noexec"):
                 if len(calls) != 1:
                     viols.append(viol("peer-invocation-count", f"CMINX_EXECUTABLE was started {len(calls)} times; cmake rc "
                                       f"{p.returncode}; stderr {p.stderr[-200:]!r}"))
-                elif calls[0] != want_argv:
-                    which = "recursive-flag" if [a for a in calls[0] if a != "-r"] == [a for a in want_argv if a != "-r"] \
-                        else ("order" if sorted(calls[0]) == sorted(want_argv) else "content")
+                elif not argv_ok(calls[0], inp, is_dir, extra, outp):
+                    which = "recursive-flag" if sorted(a for a in calls[0] if a != "-r") == sorted(a for a in want_argv if a != "-r") \
+                        else ("grouping" if sorted(calls[0]) == sorted(want_argv) else "content")
                     viols.append(viol("argv-not-verbatim", f"peer got {calls[0]!r}, expected {want_argv!r}", which=which))
             if peer_fails:
                 if p.returncode == 0 or sentinel:
